@@ -3923,9 +3923,9 @@ let here n0 = match n0 with
          | key :: l ->
            (match l with
             | [] -> []
-            | value :: l0 ->
+            | value0 :: l0 ->
               (match l0 with
-               | [] -> entry_of value (ident_name_sym key)
+               | [] -> entry_of value0 (ident_name_sym key)
                | _ :: _ -> [])))
       | KStr -> entry_of n0 None
       | _ -> [])
@@ -13573,7 +13573,7 @@ let rec hyg vp h n0 =
             | key :: l ->
               (match l with
                | [] -> kids h cs
-               | value :: l0 ->
+               | value0 :: l0 ->
                  (match l0 with
                   | [] -> kids h cs
                   | _ :: l1 ->
@@ -13590,7 +13590,7 @@ let rec hyg vp h n0 =
                                   app (hyg vp h key)
                                     (hyg vp { h_decl = h.h_decl; h_crossed =
                                       true; h_assigned = h.h_assigned;
-                                      h_live = h.h_live } value)
+                                      h_live = h.h_live } value0)
                                 | _ :: _ -> kids h cs)
                         | _ -> kids h cs)))))
          | KPrivateProp ->
@@ -13602,7 +13602,7 @@ let rec hyg vp h n0 =
                | _ :: l0 ->
                  (match l0 with
                   | [] -> kids h cs
-                  | value :: l1 ->
+                  | value0 :: l1 ->
                     (match l1 with
                      | [] -> kids h cs
                      | _ :: l2 ->
@@ -13618,7 +13618,7 @@ let rec hyg vp h n0 =
                                    | [] ->
                                      hyg vp { h_decl = h.h_decl; h_crossed =
                                        true; h_assigned = h.h_assigned;
-                                       h_live = h.h_live } value
+                                       h_live = h.h_live } value0
                                    | _ :: _ -> kids h cs)
                            | _ -> kids h cs))))))
          | KSetterProp ->
@@ -15104,6 +15104,22 @@ let apply_spread_args = function
       | _ -> false)
    | _ -> false)
 
+(** val has_dup_str : char list list -> bool **)
+
+let rec has_dup_str = function
+| [] -> false
+| x :: r -> (||) (existsb (eqb1 x) r) (has_dup_str r)
+
+(** val operand_temps : char list -> node list -> char list list **)
+
+let operand_temps vp args =
+  flat_map (fun a ->
+    match arg_expr a with
+    | Some e -> (match is_temp_ident vp e with
+                 | Some t -> t :: []
+                 | None -> [])
+    | None -> []) args
+
 (** val shape_issues : char list -> node -> char list list **)
 
 let rec shape_issues vp n0 =
@@ -15121,13 +15137,17 @@ let rec shape_issues vp n0 =
                (if arg_is_spread a0
                 then ('s'::('p'::('r'::('e'::('a'::('d'::('-'::('r'::('e'::('s'::('u'::('l'::('t'::[]))))))))))))) :: []
                 else [])
-               (match expected_of_operation op with
-                | Some ex ->
-                  if apply_spread_args op
-                  then ('a'::('p'::('p'::('l'::('y'::('-'::('s'::('p'::('r'::('e'::('a'::('d'::('-'::('a'::('r'::('g'::('s'::[]))))))))))))))))) :: []
-                  else match_args vp ex rest
-                | None ->
-                  ('u'::('n'::('k'::('n'::('o'::('w'::('n'::('-'::('o'::('p'::('e'::('r'::('a'::('t'::('i'::('o'::('n'::[]))))))))))))))))) :: [])
+               (app
+                 (if has_dup_str (operand_temps vp rest)
+                  then ('o'::('p'::('e'::('r'::('a'::('n'::('d'::('-'::('t'::('e'::('m'::('p'::('o'::('r'::('a'::('r'::('y'::('-'::('s'::('h'::('a'::('r'::('e'::('d'::[])))))))))))))))))))))))) :: []
+                  else [])
+                 (match expected_of_operation op with
+                  | Some ex ->
+                    if apply_spread_args op
+                    then ('a'::('p'::('p'::('l'::('y'::('-'::('s'::('p'::('r'::('e'::('a'::('d'::('-'::('a'::('r'::('g'::('s'::[]))))))))))))))))) :: []
+                    else match_args vp ex rest
+                  | None ->
+                    ('u'::('n'::('k'::('n'::('o'::('w'::('n'::('-'::('o'::('p'::('e'::('r'::('a'::('t'::('i'::('o'::('n'::[]))))))))))))))))) :: []))
            | None ->
              ('n'::('o'::('-'::('f'::('i'::('r'::('s'::('t'::('-'::('a'::('r'::('g'::('u'::('m'::('e'::('n'::('t'::[]))))))))))))))))) :: []))
      | None -> [])
@@ -16149,3 +16169,667 @@ let rec has_kind k n0 =
 
 let has_optchain n0 =
   has_kind KOptChain n0
+
+type value =
+| VUndef
+| VStr of char list
+| VObj of nat
+
+type expr =
+| Lit of value
+| Var of char list
+| Tmp of nat
+| Add of expr * expr
+| CallE of expr * expr
+| Par of expr
+| Hoist2 of nat * expr * nat * expr * expr
+| Hoist1 of nat * expr * expr
+| Hook of expr * expr list
+
+(** val is_triv : expr -> bool **)
+
+let is_triv = function
+| Lit _ -> true
+| Var _ -> true
+| _ -> false
+
+(** val is_lit0 : expr -> bool **)
+
+let is_lit0 = function
+| Lit _ -> true
+| _ -> false
+
+type act =
+| Keep0
+| Stay
+| Hoist
+
+(** val left_act : expr -> expr -> act **)
+
+let left_act l' r' =
+  match l' with
+  | Lit _ -> Keep0
+  | Var _ -> if is_triv r' then Keep0 else Hoist
+  | Add (_, _) -> Stay
+  | _ -> Hoist
+
+(** val right_act : expr -> expr -> act **)
+
+let right_act l' = function
+| Lit _ -> Keep0
+| Var _ -> (match l' with
+            | Add (_, _) -> Hoist
+            | _ -> Keep0)
+| Add (_, _) -> Stay
+| _ -> Hoist
+
+(** val wrap : (nat * expr) list -> expr -> expr **)
+
+let wrap binds body =
+  match binds with
+  | [] -> body
+  | p :: l ->
+    let (n1, e1) = p in
+    (match l with
+     | [] -> Hoist1 (n1, e1, body)
+     | p0 :: _ -> let (n2, e2) = p0 in Hoist2 (n1, e1, n2, e2, body))
+
+(** val rw_add : expr -> expr -> nat -> expr * nat **)
+
+let rw_add l' r' c2 =
+  let la = left_act l' r' in
+  let ra = right_act l' r' in
+  (match la with
+   | Keep0 ->
+     let p = (l', []) in
+     let (l2, bl) = p in
+     (match ra with
+      | Keep0 ->
+        let p0 = (r', []) in
+        let (r2, br) = p0 in
+        let args =
+          app (match la with
+               | Stay -> []
+               | _ -> l2 :: [])
+            (match ra with
+             | Keep0 -> r2 :: []
+             | Stay -> []
+             | Hoist -> r2 :: [])
+        in
+        if forallb is_lit0 args
+        then ((Add (l', r')), c2)
+        else ((wrap (app bl br) (Hook ((Add (l2, r2)), args))), c2)
+      | Stay ->
+        let p0 = (r', []) in
+        let (r2, br) = p0 in
+        let args =
+          app (match la with
+               | Stay -> []
+               | _ -> l2 :: [])
+            (match ra with
+             | Keep0 -> r2 :: []
+             | Stay -> []
+             | Hoist -> r2 :: [])
+        in
+        if forallb is_lit0 args
+        then ((Add (l', r')), c2)
+        else ((wrap (app bl br) (Hook ((Add (l2, r2)), args))), c2)
+      | Hoist ->
+        let p0 = ((Tmp c2), ((c2, r') :: [])) in
+        let c4 = S c2 in
+        let (r2, br) = p0 in
+        let args =
+          app (match la with
+               | Stay -> []
+               | _ -> l2 :: [])
+            (match ra with
+             | Keep0 -> r2 :: []
+             | Stay -> []
+             | Hoist -> r2 :: [])
+        in
+        if forallb is_lit0 args
+        then ((Add (l', r')), c2)
+        else ((wrap (app bl br) (Hook ((Add (l2, r2)), args))), c4))
+   | Stay ->
+     let p = (l', []) in
+     let (l2, bl) = p in
+     (match ra with
+      | Keep0 ->
+        let p0 = (r', []) in
+        let (r2, br) = p0 in
+        let args =
+          app (match la with
+               | Stay -> []
+               | _ -> l2 :: [])
+            (match ra with
+             | Keep0 -> r2 :: []
+             | Stay -> []
+             | Hoist -> r2 :: [])
+        in
+        if forallb is_lit0 args
+        then ((Add (l', r')), c2)
+        else ((wrap (app bl br) (Hook ((Add (l2, r2)), args))), c2)
+      | Stay ->
+        let p0 = (r', []) in
+        let (r2, br) = p0 in
+        let args =
+          app (match la with
+               | Stay -> []
+               | _ -> l2 :: [])
+            (match ra with
+             | Keep0 -> r2 :: []
+             | Stay -> []
+             | Hoist -> r2 :: [])
+        in
+        if forallb is_lit0 args
+        then ((Add (l', r')), c2)
+        else ((wrap (app bl br) (Hook ((Add (l2, r2)), args))), c2)
+      | Hoist ->
+        let p0 = ((Tmp c2), ((c2, r') :: [])) in
+        let c4 = S c2 in
+        let (r2, br) = p0 in
+        let args =
+          app (match la with
+               | Stay -> []
+               | _ -> l2 :: [])
+            (match ra with
+             | Keep0 -> r2 :: []
+             | Stay -> []
+             | Hoist -> r2 :: [])
+        in
+        if forallb is_lit0 args
+        then ((Add (l', r')), c2)
+        else ((wrap (app bl br) (Hook ((Add (l2, r2)), args))), c4))
+   | Hoist ->
+     let p = ((Tmp c2), ((c2, l') :: [])) in
+     let c3 = S c2 in
+     let (l2, bl) = p in
+     (match ra with
+      | Keep0 ->
+        let p0 = (r', []) in
+        let (r2, br) = p0 in
+        let args =
+          app (match la with
+               | Stay -> []
+               | _ -> l2 :: [])
+            (match ra with
+             | Keep0 -> r2 :: []
+             | Stay -> []
+             | Hoist -> r2 :: [])
+        in
+        if forallb is_lit0 args
+        then ((Add (l', r')), c2)
+        else ((wrap (app bl br) (Hook ((Add (l2, r2)), args))), c3)
+      | Stay ->
+        let p0 = (r', []) in
+        let (r2, br) = p0 in
+        let args =
+          app (match la with
+               | Stay -> []
+               | _ -> l2 :: [])
+            (match ra with
+             | Keep0 -> r2 :: []
+             | Stay -> []
+             | Hoist -> r2 :: [])
+        in
+        if forallb is_lit0 args
+        then ((Add (l', r')), c2)
+        else ((wrap (app bl br) (Hook ((Add (l2, r2)), args))), c3)
+      | Hoist ->
+        let p0 = ((Tmp c3), ((c3, r') :: [])) in
+        let c4 = S c3 in
+        let (r2, br) = p0 in
+        let args =
+          app (match la with
+               | Stay -> []
+               | _ -> l2 :: [])
+            (match ra with
+             | Keep0 -> r2 :: []
+             | Stay -> []
+             | Hoist -> r2 :: [])
+        in
+        if forallb is_lit0 args
+        then ((Add (l', r')), c2)
+        else ((wrap (app bl br) (Hook ((Add (l2, r2)), args))), c4)))
+
+(** val rw : expr -> nat -> expr * nat **)
+
+let rec rw e c =
+  match e with
+  | Add (l, r) ->
+    let (l', c1) = rw l c in let (r', c2) = rw r c1 in rw_add l' r' c2
+  | CallE (f, a) ->
+    let (f', c1) = rw f c in let (a', c2) = rw a c1 in ((CallE (f', a')), c2)
+  | Par x -> let (x', c1) = rw x c in ((Par x'), c1)
+  | _ -> (e, c)
+
+(** val temp_index_from :
+    char list -> char list -> nat -> nat -> nat option **)
+
+let rec temp_index_from vp name n0 = function
+| O -> None
+| S f ->
+  if eqb1 name (append vp (n_to_string (N.of_nat n0)))
+  then Some n0
+  else temp_index_from vp name (S n0) f
+
+(** val temp_index : char list -> char list -> nat option **)
+
+let temp_index vp name =
+  temp_index_from vp name O (S (S (S (S (S (S (S (S (S (S (S (S (S (S (S (S
+    (S (S (S (S (S (S (S (S (S (S (S (S (S (S (S (S (S (S (S (S (S (S (S (S
+    (S (S (S (S (S (S (S (S (S (S (S (S (S (S (S (S (S (S (S (S (S (S (S (S
+    (S (S (S (S (S (S (S (S (S (S (S (S (S (S (S (S (S (S (S (S (S (S (S (S
+    (S (S (S (S (S (S (S (S (S (S (S (S (S (S (S (S (S (S (S (S (S (S (S (S
+    (S (S (S (S (S (S (S (S (S (S (S (S (S (S (S (S (S (S (S (S (S (S (S (S
+    (S (S (S (S (S (S (S (S (S (S (S (S (S (S (S (S (S (S (S (S (S (S (S (S
+    (S (S (S (S (S (S (S (S (S (S (S (S (S (S (S (S (S (S (S (S (S (S (S (S
+    (S (S (S (S (S (S (S (S (S (S (S (S (S (S (S (S
+    O))))))))))))))))))))))))))))))))))))))))))))))))))))))))))))))))))))))))))))))))))))))))))))))))))))))))))))))))))))))))))))))))))))))))))))))))))))))))))))))))))))))))))))))))))))))))))))))))))))))))
+
+(** val plain_arg : node -> node option **)
+
+let plain_arg = function
+| Node (t, cs) ->
+  (match t with
+   | Obj ->
+     (match cs with
+      | [] -> None
+      | n0 :: l ->
+        let Node (t0, cs0) = n0 in
+        (match t0 with
+         | Nul ->
+           (match cs0 with
+            | [] ->
+              (match l with
+               | [] -> None
+               | e :: l0 -> (match l0 with
+                             | [] -> Some e
+                             | _ :: _ -> None))
+            | _ :: _ -> None)
+         | _ -> None))
+   | _ -> None)
+
+(** val map_opt : ('a1 -> 'a2 option) -> 'a1 list -> 'a2 list option **)
+
+let rec map_opt f = function
+| [] -> Some []
+| x :: r ->
+  (match f x with
+   | Some y ->
+     (match map_opt f r with
+      | Some ys -> Some (y :: ys)
+      | None -> None)
+   | None -> None)
+
+(** val abstract : char list -> char list -> nat -> node -> expr option **)
+
+let rec abstract vp hook fuel n0 =
+  match fuel with
+  | O -> None
+  | S f ->
+    let Node (t, cs) = n0 in
+    (match t with
+     | K (k, _, _) ->
+       (match k with
+        | KBin ->
+          (match cs with
+           | [] -> None
+           | n1 :: l0 ->
+             let Node (t0, cs0) = n1 in
+             (match t0 with
+              | Str s ->
+                (match s with
+                 | [] -> None
+                 | a::s0 ->
+                   (* If this appears, you're using Ascii internals. Please don't *)
+ (fun f c ->
+  let n = Char.code c in
+  let h i = (n land (1 lsl i)) <> 0 in
+  f (h 0) (h 1) (h 2) (h 3) (h 4) (h 5) (h 6) (h 7))
+                     (fun b b0 b1 b2 b3 b4 b5 b6 ->
+                     if b
+                     then if b0
+                          then if b1
+                               then None
+                               else if b2
+                                    then if b3
+                                         then None
+                                         else if b4
+                                              then if b5
+                                                   then None
+                                                   else if b6
+                                                        then None
+                                                        else (match s0 with
+                                                              | [] ->
+                                                                (match cs0 with
+                                                                 | [] ->
+                                                                   (match l0 with
+                                                                    | [] ->
+                                                                    None
+                                                                    | l :: l1 ->
+                                                                    (match l1 with
+                                                                    | [] ->
+                                                                    None
+                                                                    | r :: l2 ->
+                                                                    (match l2 with
+                                                                    | [] ->
+                                                                    (match 
+                                                                    abstract
+                                                                    vp hook f
+                                                                    l with
+                                                                    | Some a0 ->
+                                                                    (match 
+                                                                    abstract
+                                                                    vp hook f
+                                                                    r with
+                                                                    | Some b7 ->
+                                                                    Some (Add
+                                                                    (a0, b7))
+                                                                    | None ->
+                                                                    None)
+                                                                    | None ->
+                                                                    None)
+                                                                    | _ :: _ ->
+                                                                    None)))
+                                                                 | _ :: _ ->
+                                                                   None)
+                                                              | _::_ -> None)
+                                              else None
+                                    else None
+                          else None
+                     else None)
+                     a)
+              | _ -> None))
+        | KCall ->
+          (match cs with
+           | [] -> None
+           | _ :: l ->
+             (match l with
+              | [] -> None
+              | callee :: l0 ->
+                (match l0 with
+                 | [] -> None
+                 | n1 :: l1 ->
+                   let Node (t0, args) = n1 in
+                   (match t0 with
+                    | Lst ->
+                      (match l1 with
+                       | [] -> None
+                       | _ :: l2 ->
+                         (match l2 with
+                          | [] ->
+                            (match hook_callee_name callee with
+                             | Some name ->
+                               if eqb1 name hook
+                               then (match args with
+                                     | [] -> None
+                                     | first :: rest ->
+                                       (match plain_arg first with
+                                        | Some fe ->
+                                          (match abstract vp hook f fe with
+                                           | Some x ->
+                                             (match map_opt (fun a ->
+                                                      match plain_arg a with
+                                                      | Some e ->
+                                                        abstract vp hook f e
+                                                      | None -> None) rest with
+                                              | Some xs -> Some (Hook (x, xs))
+                                              | None -> None)
+                                           | None -> None)
+                                        | None -> None))
+                               else None
+                             | None ->
+                               (match args with
+                                | [] -> None
+                                | a :: l3 ->
+                                  (match l3 with
+                                   | [] ->
+                                     (match plain_arg a with
+                                      | Some ae ->
+                                        (match abstract vp hook f callee with
+                                         | Some fx ->
+                                           (match abstract vp hook f ae with
+                                            | Some ax -> Some (CallE (fx, ax))
+                                            | None -> None)
+                                         | None -> None)
+                                      | None -> None)
+                                   | _ :: _ -> None)))
+                          | _ :: _ -> None))
+                    | _ -> None))))
+        | KParen ->
+          (match cs with
+           | [] -> None
+           | e :: l ->
+             (match l with
+              | [] ->
+                let Node (t0, cs0) = e in
+                (match t0 with
+                 | K (k0, _, _) ->
+                   (match k0 with
+                    | KSeq ->
+                      (match cs0 with
+                       | [] ->
+                         (match abstract vp hook f e with
+                          | Some x -> Some (Par x)
+                          | None -> None)
+                       | n1 :: l0 ->
+                         let Node (t1, items) = n1 in
+                         (match t1 with
+                          | Lst ->
+                            (match l0 with
+                             | [] ->
+                               (match items with
+                                | [] -> None
+                                | a1 :: l1 ->
+                                  (match l1 with
+                                   | [] -> None
+                                   | a2 :: l2 ->
+                                     (match l2 with
+                                      | [] ->
+                                        (match assign_pair a1 with
+                                         | Some p ->
+                                           let (t2, e1) = p in
+                                           (match temp_index vp t2 with
+                                            | Some n2 ->
+                                              (match abstract vp hook f e1 with
+                                               | Some x1 ->
+                                                 (match abstract vp hook f a2 with
+                                                  | Some b ->
+                                                    Some (Hoist1 (n2, x1, b))
+                                                  | None -> None)
+                                               | None -> None)
+                                            | None -> None)
+                                         | None -> None)
+                                      | body :: l3 ->
+                                        (match l3 with
+                                         | [] ->
+                                           (match assign_pair a1 with
+                                            | Some p ->
+                                              let (t2, e1) = p in
+                                              (match assign_pair a2 with
+                                               | Some p0 ->
+                                                 let (t3, e2) = p0 in
+                                                 (match temp_index vp t2 with
+                                                  | Some n2 ->
+                                                    (match abstract vp hook f
+                                                             e1 with
+                                                     | Some x1 ->
+                                                       (match temp_index vp t3 with
+                                                        | Some n3 ->
+                                                          (match abstract vp
+                                                                   hook f e2 with
+                                                           | Some x2 ->
+                                                             (match abstract
+                                                                    vp hook f
+                                                                    body with
+                                                              | Some b ->
+                                                                Some (Hoist2
+                                                                  (n2, x1,
+                                                                  n3, x2, b))
+                                                              | None -> None)
+                                                           | None -> None)
+                                                        | None -> None)
+                                                     | None -> None)
+                                                  | None -> None)
+                                               | None -> None)
+                                            | None -> None)
+                                         | _ :: _ -> None))))
+                             | _ :: _ ->
+                               (match abstract vp hook f e with
+                                | Some x -> Some (Par x)
+                                | None -> None))
+                          | _ ->
+                            (match abstract vp hook f e with
+                             | Some x -> Some (Par x)
+                             | None -> None)))
+                    | _ ->
+                      (match abstract vp hook f e with
+                       | Some x -> Some (Par x)
+                       | None -> None))
+                 | _ ->
+                   (match abstract vp hook f e with
+                    | Some x -> Some (Par x)
+                    | None -> None))
+              | _ :: _ -> None))
+        | KIdent ->
+          (match ident_sym n0 with
+           | Some s ->
+             if prefix vp s
+             then (match temp_index vp s with
+                   | Some i -> Some (Tmp i)
+                   | None -> None)
+             else Some (Var s)
+           | None -> None)
+        | KStr ->
+          (match cs with
+           | [] -> None
+           | n1 :: _ ->
+             let Node (t0, cs0) = n1 in
+             (match t0 with
+              | Str s ->
+                (match cs0 with
+                 | [] -> Some (Lit (VStr s))
+                 | _ :: _ -> None)
+              | _ -> None))
+        | _ -> None)
+     | _ -> None)
+
+(** val value_eqb : value -> value -> bool **)
+
+let value_eqb a b =
+  match a with
+  | VUndef -> (match b with
+               | VUndef -> true
+               | _ -> false)
+  | VStr s -> (match b with
+               | VStr t -> eqb1 s t
+               | _ -> false)
+  | VObj n0 -> (match b with
+                | VObj m -> Nat.eqb n0 m
+                | _ -> false)
+
+(** val expr_eqb : expr -> expr -> bool **)
+
+let rec expr_eqb a b =
+  match a with
+  | Lit v -> (match b with
+              | Lit w -> value_eqb v w
+              | _ -> false)
+  | Var x -> (match b with
+              | Var y -> eqb1 x y
+              | _ -> false)
+  | Tmp n0 -> (match b with
+               | Tmp m -> Nat.eqb n0 m
+               | _ -> false)
+  | Add (l, r) ->
+    (match b with
+     | Add (l', r') -> (&&) (expr_eqb l l') (expr_eqb r r')
+     | _ -> false)
+  | CallE (f, x) ->
+    (match b with
+     | CallE (f', x') -> (&&) (expr_eqb f f') (expr_eqb x x')
+     | _ -> false)
+  | Par x -> (match b with
+              | Par y -> expr_eqb x y
+              | _ -> false)
+  | Hoist2 (n1, e1, n2, e2, b0) ->
+    (match b with
+     | Hoist2 (m1, f1, m2, f2, c) ->
+       (&&)
+         ((&&) ((&&) ((&&) (Nat.eqb n1 m1) (expr_eqb e1 f1)) (Nat.eqb n2 m2))
+           (expr_eqb e2 f2)) (expr_eqb b0 c)
+     | _ -> false)
+  | Hoist1 (n1, e1, b0) ->
+    (match b with
+     | Hoist1 (m1, f1, c) ->
+       (&&) ((&&) (Nat.eqb n1 m1) (expr_eqb e1 f1)) (expr_eqb b0 c)
+     | _ -> false)
+  | Hook (x, xs) ->
+    (match b with
+     | Hook (y, ys) ->
+       (&&) (expr_eqb x y)
+         (let rec go l l' =
+            match l with
+            | [] -> (match l' with
+                     | [] -> true
+                     | _ :: _ -> false)
+            | p :: r ->
+              (match l' with
+               | [] -> false
+               | q :: s -> (&&) (expr_eqb p q) (go r s))
+          in go xs ys)
+     | _ -> false)
+
+(** val last_return : node -> node option **)
+
+let rec last_return n0 = match n0 with
+| Node (_, cs) ->
+  let below =
+    let rec go l acc1 =
+      match l with
+      | [] -> acc1
+      | c :: l' ->
+        go l' (match last_return c with
+               | Some r -> Some r
+               | None -> acc1)
+    in go cs None
+  in
+  (match below with
+   | Some r -> Some r
+   | None ->
+     let Node (t0, cs0) = n0 in
+     (match t0 with
+      | K (k, _, _) ->
+        (match k with
+         | KReturn ->
+           (match cs0 with
+            | [] -> None
+            | arg :: l -> (match l with
+                           | [] -> Some arg
+                           | _ :: _ -> None))
+         | _ -> None)
+      | _ -> None))
+
+type tie_result =
+| TieNotCore
+| TieNoOutput
+| TieAgree
+| TieDiffer
+
+(** val sem_tie : char list -> char list -> node -> node -> tie_result **)
+
+let sem_tie vp hook ast_in ast_out =
+  match last_return ast_in with
+  | Some ein ->
+    (match abstract vp hook (S (node_depth ein)) ein with
+     | Some e ->
+       (match last_return ast_out with
+        | Some eout ->
+          (match abstract vp hook (S (node_depth eout)) eout with
+           | Some o ->
+             if expr_eqb (fst (rw e O)) o then TieAgree else TieDiffer
+           | None -> TieDiffer)
+        | None -> TieNoOutput)
+     | None -> TieNotCore)
+  | None -> TieNotCore
